@@ -213,6 +213,17 @@ PROPS = {
                      "partial: decoding back (creation time, type, payload image) is checked on the implementation with encoding/json as the reader, not proved; race freedom of the table is C19's lock-set theorem"],
         rule="payloads from a JSON-value generator (nil, bools, large ints, floats incl. NaN/Inf, strings built from control / HTML / multi-byte / U+2028/9 / invalid UTF-8 pieces, nested slices and maps to depth 3, channels) x event types with special characters x JSONFormatter / JSONFormatterFilter with predicate absent/keep/drop/error, eventlogger.Filter; the stored bytes are compared byte for byte with the model's rendering; non-trivial = a container or multi-token payload, distinct by op line",
     ),
+    "C18": dict(
+        module="Evl.Props.C18",
+        theorems=["Evl.C18.reject", "Evl.C18.process_valid", "Evl.C18.sign_failure", "Evl.C18.signed", "Evl.C18.unlisted_not_signed"],
+        runs=[dict(model="ce", sub="ce", driver="ce", quick=["-n", "5000"], thorough=["-n", "200000"], search=["-n", "50000"])],
+        oracle_prefixes=["C18"], models=["M8b CloudEvents", "M8 Json"],
+        trusted_base=TB_COMMON,
+        assumptions=["encoding/json struct field order / omitempty and json.Indent as modelled (compared byte for byte); time.Time RFC 3339 token and url.URL.String() passed verbatim",
+                     "base62.Random gives fresh ids (the harness checks collisions within a run only)",
+                     "the harness signer is a deterministic function the Lean driver can recompute; a failing signer returns an error"],
+        rule="all payload kinds (raw value, plain struct, ID, Data, both; nil data) x formats {unset, json, text, invalid} x schema set/unset/empty x source set/nil/empty x signer absent / succeeding / failing x listed / unlisted event types (incl. types with HTML and invalid UTF-8 bytes) x predicate absent/keep/drop/error; non-trivial = a document was produced, distinct by op line",
+    ),
     "C11": dict(
         module="Evl.Props.C11",
         theorems=["Evl.C11.conservation_step", "Evl.C11.conservation", "Evl.C11.no_duplication", "Evl.C11.passthrough",
